@@ -120,8 +120,8 @@ def plan(seed, tier):
             {
                 "world": worlds[(ci // chunk) % nworlds],
                 "fn": "run_batch",
-                "payload": {"trees": trees, "cap": cap, "sample": sample, "seed": "%s/%d" % (seed, ci), "exhaustive_part": True, "runs_per_tree": rpt, "time_limit": 240},
-                "timeout": 300,
+                "payload": {"trees": trees, "cap": cap, "sample": sample, "seed": "%s/%d" % (seed, ci), "exhaustive_part": True, "runs_per_tree": rpt, "time_limit": 700},
+                "timeout": 900,
             }
         )
     nrandom = 200 if tier == "quick" else 6000
@@ -133,8 +133,8 @@ def plan(seed, tier):
             {
                 "world": worlds[(ci // chunk) % nworlds],
                 "fn": "run_batch",
-                "payload": {"trees": trees, "cap": cap // 2, "sample": sample, "seed": "%s/r%d" % (seed, ci), "exhaustive_part": False, "runs_per_tree": rpt // 2, "time_limit": 240},
-                "timeout": 300,
+                "payload": {"trees": trees, "cap": cap // 2, "sample": sample, "seed": "%s/r%d" % (seed, ci), "exhaustive_part": False, "runs_per_tree": rpt // 2, "time_limit": 700},
+                "timeout": 900,
             }
         )
     jobs.reverse()  # the random-tree jobs are the heaviest: start them first
